@@ -250,6 +250,45 @@ func parseStats(s string) info.PropMap {
 	return pm
 }
 
+func dresStr(m info.DebuffRESMap) string {
+	var ks []int
+	for k := range m {
+		ks = append(ks, int(k))
+	}
+	sort.Ints(ks)
+	var out []string
+	for _, k := range ks {
+		if m[model.BehaviorFlag(k)] != 0 {
+			out = append(out, fmt.Sprintf("%d:%s", k, wire.FStr(m[model.BehaviorFlag(k)])))
+		}
+	}
+	return strings.Join(out, "|")
+}
+
+func parseDres(s string) info.DebuffRESMap {
+	if s == "" || s == "-" {
+		return nil
+	}
+	m := info.NewDebuffRESMap()
+	for _, t := range strings.Split(s, "|") {
+		kv := strings.SplitN(t, ":", 2)
+		k, _ := strconv.Atoi(kv[0])
+		f, _ := wire.ParseF(kv[1])
+		m[model.BehaviorFlag(k)] = f
+	}
+	return m
+}
+
+func flagsOf(st *info.Stats) []int {
+	var out []int
+	for _, f := range []int{1, 100, 101, 103} {
+		if st.HasBehaviorFlag(model.BehaviorFlag(f)) {
+			out = append(out, f)
+		}
+	}
+	return out
+}
+
 // weakness entries travel as <damage type>:<0|1> joined by '|' ("-" for none); explicit false entries matter
 func parseWeak(s string) info.WeaknessMap {
 	if s == "" || s == "-" {
@@ -361,7 +400,7 @@ func (modComp) Exec(c *wire.Case, w *wire.Writer) {
 				sess.lastChance = -1
 				ok, err := sess.add(t, info.Modifier{Name: nm, Source: key.TargetID(op.Int("src")), Duration: op.Int("dur"),
 					Count: float64(op.Int("count")), MaxCount: float64(op.Int("max")), CountAddWhenStack: float64(op.Int("cadd")),
-					TickImmediately: op.Bool("imm"), Stats: st, Weakness: parseWeak(op.Str("weak")), Chance: op.Flt("chance")})
+					TickImmediately: op.Bool("imm"), Stats: st, Weakness: parseWeak(op.Str("weak")), DebuffRES: parseDres(op.Str("dres")), Chance: op.Flt("chance")})
 				if err == nil && ok && op.Has("chance") && op.Flt("chance") > 0 && sess.lastChance != -1 {
 					sess.out = append(sess.out, wire.R("applied").F("chance", sess.lastChance))
 				}
@@ -417,7 +456,7 @@ func (modComp) Exec(c *wire.Case, w *wire.Writer) {
 		for id := 1; id <= 3; id++ {
 			var uids, names, srcs, durs, counts, maxs, renew, cadds []int
 			var imms []string
-			var p2, stats, weaks []string
+			var p2, stats, weaks, dress []string
 			for _, vi := range sess.mgr.VerifInstances(key.TargetID(id)) {
 				uids = append(uids, sess.uids[vi.Inst])
 				names = append(names, modNameIdx(vi.Model.Name))
@@ -443,6 +482,11 @@ func (modComp) Exec(c *wire.Case, w *wire.Writer) {
 				}
 				stats = append(stats, s)
 				weaks = append(weaks, weakStr(vi.Weakness))
+				dr := dresStr(vi.Model.DebuffRES)
+				if dr == "" {
+					dr = "-"
+				}
+				dress = append(dress, dr)
 			}
 			st := eng.attr.Stats(key.TargetID(id))
 			var weakTo []int
@@ -454,7 +498,9 @@ func (modComp) Exec(c *wire.Case, w *wire.Writer) {
 			w.Ob(wire.R("list").I("t", id).Is("uids", uids).Is("names", names).Is("srcs", srcs).Is("durs", durs).Is("counts", counts).
 				Is("maxs", maxs).Is("renew", renew).Is("cadds", cadds).Ss("imms", imms).Ss("p2", p2).S("stats", strings.Join(stats, ";")).
 				F("atkpct", st.GetProperty(prop.ATKPercent)).F("reduce", st.GetProperty(prop.AllDamageReduce)).F("atk", st.ATK()).F("spd", st.SPD()).F("cc", st.GetProperty(prop.CritChance)).
-				S("weaks", strings.Join(weaks, ";")).Is("weak", weakTo))
+				S("weaks", strings.Join(weaks, ";")).Is("weak", weakTo).S("dress", strings.Join(dress, ";")).
+				Is("scounts", []int{st.StatusCount(0), st.StatusCount(1), st.StatusCount(2)}).Is("flags", flagsOf(st)).
+				Fs("dres", []float64{st.GetDebuffRES(100), st.GetDebuffRES(101), st.GetDebuffRES(103)}))
 		}
 	}
 	modSess = nil
@@ -567,6 +613,8 @@ func (modComp) Gen(r *rand.Rand, tier string, n int) []*wire.Case {
 	mk("d-resist", chanceOp(3, 3, 3, 0.5, 0.4), chanceOp(3, 3, 3, 0.5, 0.5), chanceOp(3, 3, 3, 0.5, 0.6), chanceOp(3, 3, 1, 0.5, 0.6), chanceOp(3, 3, 1, 0.5, 0.65), chanceOp(3, 3, 1, 0.5, 0.7),
 		chanceOp(2, 3, 3, 1, 0.69), chanceOp(2, 3, 3, 1, 0.7), chanceOp(2, 7, 3, 1, 0.34), chanceOp(2, 7, 3, 1, 0.36), chanceOp(2, 8, 1, 1, 0.6), chanceOp(2, 8, 1, 1, 0.7), chanceOp(2, 9, 1, 1, 0.4),
 		chanceOp(1, 0, 2, 0, 0.99), chanceOp(1, 0, 2, -1, 0.99), chanceOp(1, 7, 9, 1, 0.1), chanceOp(9, 7, 1, 1, 0.1), chanceOp(1, 0, 1, 1, 0.1), chanceOp(1, 0, 1, 1, 0.1))
+	mk("d-flags-counts-dres", add(2, 7, 1, 0, 0, "").S("dres", "100:"+wire.FStr(0.25)), add(2, 8, 1, 0, 0, "").S("dres", "103:"+wire.FStr(0.5)+"|100:"+wire.FStr(0.1)), add(2, 3, 1, 0, 0, ""), add(1, 11, 1, 0, 0, "").S("dres", "101:"+wire.FStr(0.3)),
+		add(1, 14, 1, 0, 0, ""), wire.R("rm").I("t", 2).I("name", 7), add(3, 9, 1, 0, 0, ""))
 	mk("d-stat-parts", add(1, 3, 1, 0, 0, conv), add(1, 10, 1, 0, 0, flat), add(2, 3, 1, 0, 0, spd), add(2, 10, 1, 0, 0, spdconv), add(3, 3, 1, 0, 0, spdconv), wire.R("rm").I("t", 2).I("name", 3))
 	mk("d-stat-clamp", add(1, 3, 1, 0, 0, negpct), add(1, 10, 1, 0, 0, flat), add(2, 3, 1, 0, 0, negflat), add(2, 10, 1, 0, 0, flat), add(3, 3, 1, 0, 0, negpct+"|"+flat), wire.R("rm").I("t", 1).I("name", 3))
 	mk("d-shared-empty-desc", add(1, 3, 1, 0, 0, "").S("share", "e"), add(2, 3, 1, 0, 0, "").S("share", "e"), wire.R("instprop").I("t", 1).I("uid", 1).I("p", int(prop.ATKPercent)).F("x", 0.5),
@@ -598,6 +646,9 @@ func (modComp) Gen(r *rand.Rand, tier string, n int) []*wire.Case {
 				}
 				if r.Intn(4) == 0 {
 					op.S("weak", pick(r, "2:1", "2:0|3:1", "6:1", "6:0", "3:1|4:1", "2:0", "7:1|6:0"))
+				}
+				if r.Intn(5) == 0 {
+					op.S("dres", pick(r, "100:"+wire.FStr(0.25), "103:"+wire.FStr(0.5), "100:"+wire.FStr(0.1)+"|101:"+wire.FStr(0.3), "101:"+wire.FStr(-0.2)))
 				}
 				if r.Intn(4) == 0 {
 					// an application that can be resisted: base chance and the roll
